@@ -362,6 +362,7 @@ fn body_with<R: FileReader>(spec: &LintSpec, base: &str, mk_reader: &dyn Fn() ->
                 })
                 .collect();
             parser.sort_diagnostics(&mut tagged);
+            parser.dedup_diagnostics(&mut tagged);
             obs.diags = tagged
                 .iter()
                 .map(|d| {
